@@ -456,16 +456,18 @@ func exploreItem(bc *bCtx, it bItem, maxDepth int, failInj bool) {
 	// 3. cancellation at every commit and at every first read of an ingest range; 4. failed commit
 	var ins []interrupt
 	ins = append(ins, interrupt{inCancelStart, 0})
+	full := failInj || st.depth == 0 // quick tier: failed commits and cancel-at-read only on the first process start
 	for k := 1; k <= n; k++ {
 		ins = append(ins, interrupt{inCancelCommit, k})
-		if failInj {
+		if full {
 			ins = append(ins, interrupt{inFail, k})
 		}
 	}
-	for k := 1; k <= o.arrivals; k++ {
+	for k := 1; k <= o.arrivals && full; k++ {
 		ins = append(ins, interrupt{inCancelGate, k})
 	}
-	for _, in := range ins {
+	ev.Par(len(ins), 4, func(ii int) {
+		in := ins[ii]
 		oi := execRun(t, st.img, pm, in)
 		r.Add("evaluations", 1)
 		r.Add("b_runs", 1)
@@ -476,7 +478,7 @@ func exploreItem(bc *bCtx, it bItem, maxDepth int, failInj bool) {
 		}
 		if oi.newErr != nil {
 			r.Violate("b/restart-refused", map[string]any{"shape": sp.Name, "trace": tri, "err": oi.newErr.Error()})
-			continue
+			return
 		}
 		switch {
 		case oi.runErr == nil:
@@ -497,7 +499,7 @@ func exploreItem(bc *bCtx, it bItem, maxDepth int, failInj bool) {
 		for k := 1; k <= oi.d.Commits(); k++ {
 			sh.add(oi.d.Image(k), st.depth+1, fmt.Sprintf("%s [image %d/%d]", tri, k, oi.d.Commits()))
 		}
-	}
+	})
 }
 
 func errClass(a, b error) string {
